@@ -57,7 +57,7 @@ def build_pool(rng, tier):
 
 def run(tier="quick", seed=0, arg=None):
     global LIMIT
-    LIMIT = 3 if tier == "quick" else 20
+    LIMIT = 3 if tier == "quick" else 6
     rng = Rng(seed)
     envs = environments(full=(tier != "quick"))
     pool = build_pool(rng, tier)
@@ -164,8 +164,14 @@ def run(tier="quick", seed=0, arg=None):
     group_pairs += [(x, y) for x in vp for y in vp]
     W = [(t, m) for t, m in pool if t in set(WITNESS_TEXTS)]
     group_pairs += [(x, y) for x in W for y in W]
+    import time as _time
+    t_start, budget_s, pairs_done = _time.time(), (None if tier == "quick" else 1500), 0
     for i in range(npairs + len(group_pairs)):
-        (ta, a), (tb, b) = group_pairs[i - npairs] if i >= npairs else (rng.choice(pool), rng.choice(pool))
+        # the catalogued pairs come first and are always run in full; the random pairs of the thorough tier stop at a wall-clock budget
+        (ta, a), (tb, b) = group_pairs[i] if i < len(group_pairs) else (rng.choice(pool), rng.choice(pool))
+        if i >= len(group_pairs) and budget_s is not None and _time.time() - t_start > budget_s:
+            break
+        pairs_done += 1
         va, vb = vec(a), vec(b)
         inp = {"a": ta, "b": tb}
         if len(set(va)) > 1 and len(set(vb)) > 1:
@@ -256,4 +262,4 @@ def run(tier="quick", seed=0, arg=None):
             "rule": "markers parsed from the well-defined atom pool (%d atoms, both operand orders) and random and/or combinations (%d markers); pairs/triples "
                     "sampled with VERIF_SEED; every result evaluated on %d environments (python 2.7-4.0 patch levels x string pools x extra sets); "
                     "per-case time limit 10 s (timed-out cases are not evaluated); non-trivial = both operands neither constant true nor false on the grid" % (len(atoms()), len(pool), len(envs)),
-            "samples": samples, "failures": fails[:3000], "n_failures": len(fails), "bound": f"{len(pool)} markers, {npairs} pairs, {len(envs)} environments"}
+            "samples": samples, "failures": fails[:3000], "n_failures": len(fails), "bound": f"{len(pool)} markers, {pairs_done} pairs ({len(group_pairs)} catalogued + random), {len(envs)} environments"}
